@@ -331,6 +331,8 @@ def run(ctx):
                 c["_depth"] = 3
     if not ctx.quick:
         cfgs += [dict(method=m, dtype="longdouble", dense=False, _depth=3) for m in BASES[:4]]
+    # single precision (another dispatch of the nonlinear solver, coarser rounding of times): two set-ups at depth 2 (quick) / 3
+    cfgs += [dict(method=m, dtype="float32", dense=d, _depth=2 if ctx.quick else 3) for (m, d) in (("RK45CKSolver", True), ("BackwardEuler", False))]
     if not ctx.only or "bfs" in ctx.only:
         explore.bfs(ctx, cfgs, ops_fn, step, depth, section="bfs", horizon=600)
     if not ctx.only or "split" in ctx.only:
